@@ -1,4 +1,5 @@
 import RedoModel.Lemmas.Deps
+import RedoModel.Props.C09b
 /-!
 # C12 — Dependency cycles end in an error, never in a hang
 Property theorems only.  Model: `RedoModel/Deps.lean`.  Every function of the model is total
@@ -32,5 +33,25 @@ theorem cyclic_verdict_status (E : Engine) (d : Defects) (cx : Ctx) (fuel t : Na
 
 /-- A cyclic status is never zero: whoever asked gets a failure. -/
 theorem cyclic_is_failure : EXIT_CYCLIC_DEPENDENCY ≠ 0 := by decide
+
+/-! ### At -j>1: the wait-for protocol (model `RedoModel/Waits.lean`, guarded acceptor `WaitsG`) -/
+
+/-- On an acyclic declared graph no accepted state of the lock hand-over protocol is a deadlock
+(`C09.progress`): whatever the number of processes and the interleaving, somebody can move.  So a
+hang at -j>1 needs a cycle in what the scripts declare. -/
+theorem acyclic_never_hangs (reach : Nat → List Nat) (univ : List Nat) (rank : Nat → Nat)
+    (H0 : ∀ u f, f ∈ reach u → f < 1000000) (H1 : ∀ u f, f ∈ reach u → rank f < rank u)
+    (H2 : ∀ f, rank (RedoModel.Waits.oobKey f) = rank f)
+    (es : List RedoModel.Waits.Ev) (hin : ∀ ev ∈ es, RedoModel.Waits.evIn univ ev = true) (s : RedoModel.Waits.State)
+    (h : RedoModel.Waits.runG reach univ {} es = .ok s) : RedoModel.Waits.deadlocked s univ = false :=
+  C09.progress reach univ rank H0 H1 H2 es hin s h
+
+/-- Witness for the recorded finding `crossBranchCycleUndetected`: with a cyclic declared graph
+(`top → c0 → c1 → c2 → c0`, entered at `top` and at `c1`) the protocol accepts a run that ends with
+every process waiting — each branch blocks on a lock held by an ancestor of the other, and neither
+lock is in the waiter's inherited `REDO_CYCLES`.  Every local guard holds; only acyclicity fails. -/
+theorem cross_branch_cycle_deadlocks :
+    ∃ s, RedoModel.Waits.runG C09.cyReach C09.cyUniv {} C09.cyEs = .ok s ∧ RedoModel.Waits.deadlocked s C09.cyUniv = true :=
+  C09.cross_branch_deadlock_guarded
 
 end C12
